@@ -47,3 +47,8 @@ CHECKS["C13"] = ("exploration",
   "The functional helpers are enumerated exhaustively (all index tuples / ranges / cut sets / masks / permutation pairs up to the stated sizes) and compared with each other and with independent reference implementations; every component is run on random populations (sizes 0-9, dimensions 1-8, rates from {0, 0.05, 0.5, 1, random}, both insert modes, the whole documented constructor range) and must neither panic nor err, keep shapes, conserve genes, respect rate 0 / rate 1 and produce the prescribed number of offspring; DE mutation is compared exactly.",
   "Which whole cycles cycle_crossover assigns to which child is not asserted (any assignment is valid under the property). Degenerate parameters without documented behaviour are excluded (evidence.assumptions).",
   "DESIGN.md §6 C13")
+CHECKS["C14"] = ("exploration",
+  "grid-exhaustive + proptest coordinates around each domain for the four boundary operators (worker thread with watchdog for termination), proptest over sizes/dimensions/domains/seeds for the initialisation operators",
+  "Each boundary operator is applied to every coordinate of a grid around seven domains (the bounds, their floating-point neighbours, fractional and whole multiples of the width up to 1e6, and six astronomically distant values), alone and embedded next to inside and on-bound coordinates, plus random coordinates; it must terminate (10 s watchdog on a microsecond operation), land within the bounds up to 4 ulp, keep inside coordinates bit-identical and be idempotent. Initialisation operators are checked for exact counts, unevaluated individuals, dimension, half-open domain membership and permutation validity over sizes 0-20, dimensions 0-8 and mixed domains.",
+  "Non-termination is observed through a watchdog. At most three time-outs are paid per run; later cases of the same operator are then skipped (the violation is already reported).",
+  "DESIGN.md §6 C14")
